@@ -448,7 +448,7 @@ fn flat_memory(case: &Case) -> (usize, Vec<u128>, Vec<usize>) {
 fn ef_shape(n: usize, u: usize) -> (usize, usize, usize, usize) {
     let mut l = 0;
     if n > 0 && u >= n {
-        let q = u / n;
+        let q = (u / n) as u128; // 128 bits: `q >> 64` must be 0, not an overflow, when n = 1 and u >= 2^63
         while (q >> (l + 1)) > 0 {
             l += 1;
         }
